@@ -72,7 +72,7 @@ FA == AbsP(<<"w", "a">>)
 FB == AbsP(<<"w", "b">>)
 OpenFlagSets ==
     {<<acc>> \o app \o cr \o tr : acc \in {"RDONLY", "WRONLY", "RDWR"}, app \in {<<>>, <<"APPEND">>},
-                                   cr \in {<<>>, <<"CREATE">>, <<"CREATE", "EXCL">>}, tr \in {<<>>, <<"TRUNC">>}}
+                                   cr \in {<<>>, <<"CREATE">>, <<"CREATE", "EXCL">>, <<"EXCL">>}, tr \in {<<>>, <<"TRUNC">>}}
 
 SizeOfH(s, h) == IF s.h[h].open /\ ~s.h[h].dir /\ s.h[h].ino \in DOMAIN s.ino THEN Len(s.ino[s.h[h].ino].data) ELSE 0
 
